@@ -247,3 +247,6 @@ func (m *Map) Range(f func(key, value any) bool) {
 		}
 	}
 }
+
+// QueuedReaders reports how many readers are queued behind a writer (self-tests).
+func QueuedReaders(rw *RWMutex) int { return len(rw.waiting) }
